@@ -245,6 +245,7 @@ func (ctx *_OpContextType) encodeRaw(as abi.As, arg *abi.AsArgument) (x uint32, 
 		assert(arg.Imm >= 0 && arg.Imm < (1<<14))
 		rd := ctx.regI(arg.Rd)
 		rj := ctx.regI(arg.Rs1)
+		assert(rj > 1) // rj=0 is CSRRD and rj=1 is CSRWR
 		csr := uint32(arg.Imm) & 0x3FFF
 		x |= (csr << 10) | (rj << 5) | rd
 		return
